@@ -360,7 +360,7 @@ func ReadRequest(br *bufio.Reader, keep bool) (*Msg, error) {
 // ReadRequestHead parses a request head and decides the body framing; the
 // body is left unread.
 func ReadRequestHead(br *bufio.Reader) (*Msg, error) {
-	head, err := readHead(br, 1<<20)
+	head, err := readHead(br, 32<<20)
 	if err != nil {
 		return nil, err
 	}
@@ -411,7 +411,7 @@ func ReadResponse(br *bufio.Reader, reqMethod string, keep bool) *Msg {
 }
 
 func readResponse(br *bufio.Reader, reqMethod string, keep bool) *Msg {
-	head, err := readHead(br, 1<<20)
+	head, err := readHead(br, 32<<20)
 	if err != nil && len(head) == 0 {
 		if isClose(err) {
 			return nil
